@@ -4,7 +4,7 @@
    Specification: Spec/C12Spec.v (EmitsAt / EmitsIn, evident_type, expect_ty, sites, oracle, classes). *)
 From Coq Require Import String Ascii List Arith Bool.
 Require Import TT.Model.Str TT.Spec.TsLex TT.Spec.TsModule TT.Spec.TsObs TT.Model.Pipeline TT.Model.Events TT.Spec.C12Spec.
-Require Import TT.Proofs.C12Proofs TT.Proofs.C12Exact TT.Proofs.C12Payload.
+Require Import TT.Proofs.C12Proofs TT.Proofs.C12Exact TT.Proofs.C12Payload TT.Proofs.C12Parse.
 Import ListNotations.
 
 (* Walker completeness: every emit at a documented placement (expression statement, let
@@ -109,11 +109,26 @@ Theorem C12_path_repaired : repaired w_path. Proof. exact repaired_path. Qed.
 Theorem C12_refuted_without_classes : exists p, in_domain p = true /\ model_complaints p <> [].
 Proof. exact full_statement_needs_classes. Qed.
 
+(* String level, token part (for every list of listener records): the token stream of the events
+   module - the two imports, then the listener template once per record with its three holes -
+   contains no lexical error, is parsed by the specification parser into the two imports followed by
+   exactly one async function item per record, and the observation layer reads back exactly the
+   records (identifier, handler payload type, one listen call, its type argument and event name).
+   Payload type holes: the five primitive texts, or types.N for an identifier N other than listen. *)
+Theorem C12_events_tokens_parse : forall rs, forallb rec_ok rs = true ->
+  has_err (module_toks rs) = false /\
+  p_items (S (List.length (module_toks rs))) (module_toks rs) [] = Some (header_items ++ map rec_item rs) /\
+  lsts (header_items ++ map rec_item rs) = map rec_lst rs.
+Proof. intros rs H. exact (conj (no_err_module rs) (conj (parse_module_toks rs H) (lsts_module rs H))). Qed.
+
 (* The whole property on the model, NOT asserted: what remains unproved is the string level - that
    the payload string is rendered to the expected TypeScript type text and that the module parser
    reads the template text back into the listener records (both hold by evaluation on C12_ex_clean
    and on every case of the correspondence run). *)
 Definition C12_full_statement : Prop := C12Proofs.C12_full_statement.
+
+(* The remaining string-level step, NOT asserted: the template text lexes to module_toks. *)
+Definition C12_lex_statement : Prop := C12Parse.lex_statement.
 
 (* ---- non-vacuity ---- *)
 Definition clean_body : list stmt := [
@@ -138,6 +153,14 @@ Example C12_ex_clean_premises :
   forallb (fun n => negb (kf_collision names n)) names = true /\
   forallb (fun s => negb (kf_payload s) && negb (degenerate (pcore s))) (project_sites clean_project) = true /\
   List.length names = 6.
+Proof. vm_compute. repeat split; reflexivity. Qed.
+(* the lexing step holds by evaluation on the clean project (6 listeners, all payload shapes), so that
+   C12_events_tokens_parse applies to the model's actual text *)
+Example C12_ex_lex_link :
+  lex_module (events_text (project_events clean_project)) = module_toks (model_recs (project_events clean_project)) /\
+  forallb rec_ok (model_recs (project_events clean_project)) = true /\
+  map r_ty (model_recs (project_events clean_project)) =
+    [PCustom (L "Progress"); PCustom (L "Progress"); PCustom (L "Progress"); PCustom (L "Progress"); PPrim (L "number"); PPrim (L "void")].
 Proof. vm_compute. repeat split; reflexivity. Qed.
 Example C12_ex_emits_in : EmitsIn clean_body (L "in-else") (XRef (V "p")).
 Proof.
@@ -186,3 +209,4 @@ Print Assumptions C12_ident_repaired.
 Print Assumptions C12_tuple_repaired.
 Print Assumptions C12_path_repaired.
 Print Assumptions C12_refuted_without_classes.
+Print Assumptions C12_events_tokens_parse.
